@@ -130,6 +130,7 @@ class Func:
     inferred: list | None = None   # for un-annotated bodies: list of tuples of literal values returned
     result_docs: list = field(default_factory=list)   # [(name or '', type or None, text)]
     example: str = ""
+    setter: bool = False           # a property that also has a setter (mypy: an overloaded definition without implementation)
 
 
 @dataclass
@@ -316,6 +317,9 @@ def func_src(f: Func, style: str, indent: str, in_class: bool) -> str:
     out += render_doc(style, f.doc, f.params, f.result_docs, None, f.example, indent + "    ")
     for line in f.body.split("\n"):
         out += f"{indent}    {line}\n"
+    if in_class and f.deco == "prop" and f.setter:
+        out += f"\n{indent}@{f.name}.setter\n{indent}def {f.name}(self, value{': ' + f.ret.src() if f.ret is not None else ''}) -> None:\n"
+        out += f"{indent}    pass\n"
     return out
 
 
@@ -614,6 +618,7 @@ def gen_func(rng, names: Names, refs, tvs, *, private=False, deco="plain", docs=
         f.params = []
         f.ret = gen_ann(rng, 1, refs)
         f.body = "..."
+        f.setter = rng.random() < 0.4
     elif r < infer_prob:
         rest = [p for p in f.params if p.name != "a"]
         f.params = [Param("a", "posonly" if any(p.kind == "posonly" for p in rest) else "pos", Ann("int"))] + rest
